@@ -132,6 +132,9 @@ def _check_dna(res, spec, shape, d, origin, sig, full=True):
       (kt, vt, mk, inc) for kt, vt in (('id', 'value'), ('name_or_id', 'literal'), ('dna_spec', 'dna'),
                                        ('name_or_id', 'choice_and_literal'))
       for mk in MULTI for inc in (False, True) if not (mk == 'subchoice' and not inc)]
+  if len(nums) > 8:
+    # large DNAs: a rotating third of the view combinations (each costs a full rebuild of the DNA)
+    combos = combos[len(nums) % 3::3]
   for kt, vt, mk, inc in combos:
     if True:
       try:
